@@ -17,7 +17,8 @@ C01-11 C02-11 C03-11 C05-11 C05-12 C06-11 C07-12 C08-11 C09-11 C10-11 C10-12 C11
 C02-10 C03-10 C05-10 C06-9 C06-10 C07-10 C08-9 C09-10 C10-10 C11-9 C12-9 C12-10 C13-10 C14-9 C14-10 C15-9 C15-10 C16-10 C18-10 C19-9
 C01-7 C02-7 C05-7 C06-8 C07-7 C08-7 C09-7 C09-8 C11-7 C12-7 C12-8 C14-7 C14-8 C15-8 C16-7 C16-8 C17-7 C18-7 C18-8 C19-7 C19-8 C20-7
 C01-13 C02-14 C03-13 C03-14 C04-13 C04-14 C05-13 C05-14 C06-13 C06-14 C07-14 C08-13 C09-13 C09-14 C10-13 C11-14 C12-14 C13-14 C14-13 C14-14 C15-13 C16-13 C16-14 C17-14 C18-13 C18-14 C19-13 C19-14
-C01-5 C01-6 C02-5 C02-6 C03-5 C05-5 C06-5 C07-5 C08-5 C09-5 C09-6 C10-5 C11-5 C11-6 C12-5 C12-6 C13-5 C14-6 C16-5 C17-6 C18-5 C18-6 C20-6""".split())
+C01-5 C01-6 C02-5 C02-6 C03-5 C05-5 C06-5 C07-5 C08-5 C09-5 C09-6 C10-5 C11-5 C11-6 C12-5 C12-6 C13-5 C14-6 C16-5 C17-6 C18-5 C18-6 C20-6
+C04-15 C12-15 C16-15 C20-15""".split())
 results = {}
 rp = os.path.join(S, "RESULTS.md")
 if os.path.exists(rp):
